@@ -96,5 +96,7 @@ C04_PROGRAMS = [
     "p(X/2) :- q(X). r(X) :- p(X).", "s :- not not s.", "s :- q(X), not p(X). p(X) :- r(X).", "p(X) :- q(X). p(X) :- r(X), X != 1.",
     "t(X, Y) :- q(X), q(Y), X < Y. p(X) :- t(X, Y).", "p(X) :- q(X). r(X) :- not p(X), q(X). s :- r(1).",
     "{p(0..1)}. r(X) :- p(X). :- r(0), r(1).", "p(a). r(X) :- p(X), q(X).", "p(X) :- X = 0..1, not q(X).", "r(X+1) :- q(X). p(X) :- r(X), not q(X).",
+    # several rules for one predicate, only some with variables named like the head variables of the completed definitions
+    "p(V1) :- q(V1). p(X) :- r(X), X > 0.", "p(V2) :- q(V2), not r(V1), q(V1). p(V1) :- r(V1), V1 < 0. p(X) :- q(X), X = 3.", "t(V2, X) :- q(X), r(V2). t(X, Y) :- q(X), q(Y), X < Y.",
     ":- q(X), not p(X). {p(X)} :- q(X).", "p(X, Y) :- q(X), r(Y). s :- p(X, X).", "p :- q. r :- not p.", "p(X) :- q(X), not not r(X). {r(X)} :- q(X).",
 ]
